@@ -11,6 +11,11 @@
 #ifndef SPEC_SB_VIEW_H
 #define SPEC_SB_VIEW_H
 #include <stddef.h>
+#ifdef LIBKSI_VERIF            /* the views are local objects of the harness: the pointer checks inside the spec are noise */
+#pragma CPROVER check push
+#pragma CPROVER check disable "pointer"
+#pragma CPROVER check disable "pointer-overflow"
+#endif
 
 #define SBV_MAX 8                    /* capacity of a view (jobs bound the number of children to <= 6, +1 appended) */
 #define SBV_TAG_AGGR      0x0801u
@@ -50,6 +55,12 @@ static size_t sbv_count(const sb_view *v, unsigned tag) {
 	size_t i, c = 0;
 	for (i = 0; i < SBV_MAX; i++) if (i < v->n && v->tag[i] == tag) c++;
 	return c;
+}
+
+static int sbv_contains(const sb_view *v, const void *id) {
+	size_t i;
+	for (i = 0; i < SBV_MAX; i++) if (i < v->n && v->id[i] == id) return 1;
+	return 0;
 }
 
 /* index of the first child with the tag, or v->n */
@@ -110,6 +121,79 @@ static void sbv_set_publication(const sb_view *in, const void *newPub, sb_view *
 	sbv_append(&t, newPub, SBV_TAG_PUB, out);
 }
 
+/* ---- the same statements in WITNESS form (one arbitrary index w instead of a constructed sequence; cheaper for the
+ * SAT back end, equivalent: the kept children map one-to-one and in order onto 0 .. n'-1).  Natively: loop over all w. */
+static size_t sbv_anchors_before(const sb_view *v, size_t w) {
+	size_t i, c = 0;
+	for (i = 0; i < SBV_MAX; i++) if (i < v->n && i < w && sbv_is_anchor_tag(v->tag[i])) c++;
+	return c;
+}
+/* now == sbv_remove_anchors(old), looked at through index w of old */
+static int sbv_wit_remove_anchors(const sb_view *old, const sb_view *now, size_t w) {
+	size_t a = sbv_anchors_before(old, old->n);
+	if (now->n + a != old->n) return 0;
+	if (w >= old->n || sbv_is_anchor_tag(old->tag[w])) return 1;
+	{
+		size_t p = w - sbv_anchors_before(old, w);
+		return p < now->n && now->id[p] == old->id[w] && now->tag[p] == old->tag[w];
+	}
+}
+/* now == sbv_replace_cal(old, newId), looked at through index w */
+static int sbv_wit_replace_cal(const sb_view *old, const sb_view *now, const void *newId, size_t w) {
+	size_t k = sbv_first(old, SBV_TAG_CAL);
+	if (now->n != old->n + (k == old->n ? 1 : 0)) return 0;
+	if (k >= SBV_MAX || now->id[k] != newId || now->tag[k] != SBV_TAG_CAL) return 0;
+	if (w >= old->n || w == k) return 1;
+	return now->id[w] == old->id[w] && now->tag[w] == old->tag[w];
+}
+/* now == sbv_extend(old, newCal), looked at through index w */
+static int sbv_wit_extend(const sb_view *old, const sb_view *now, const void *newCal, size_t w) {
+	size_t k = sbv_first(old, SBV_TAG_CAL);
+	size_t a = sbv_anchors_before(old, old->n);
+	if (now->n + a != old->n + (k == old->n ? 1 : 0)) return 0;
+	{
+		size_t pk = k - sbv_anchors_before(old, k);          /* where the calendar chain child ends up */
+		if (pk >= now->n || now->id[pk] != newCal || now->tag[pk] != SBV_TAG_CAL) return 0;
+	}
+	if (w >= old->n || w == k || sbv_is_anchor_tag(old->tag[w])) return 1;
+	{
+		size_t p = w - sbv_anchors_before(old, w);
+		return p < now->n && now->id[p] == old->id[w] && now->tag[p] == old->tag[w];
+	}
+}
+/* now == sbv_set_publication(old, newPub), looked at through index w */
+static int sbv_wit_set_publication(const sb_view *old, const sb_view *now, const void *newPub, size_t w) {
+	size_t a = sbv_anchors_before(old, old->n);
+	if (now->n + a != old->n + 1) return 0;
+	if (now->n == 0 || now->n > SBV_MAX || now->id[now->n - 1] != newPub || now->tag[now->n - 1] != SBV_TAG_PUB) return 0;
+	if (w >= old->n || sbv_is_anchor_tag(old->tag[w])) return 1;
+	{
+		size_t p = w - sbv_anchors_before(old, w);
+		return p + 1 < now->n && now->id[p] == old->id[w] && now->tag[p] == old->tag[w];
+	}
+}
+/* the kept part (everything but calendar chain and anchors) of old and now agree, looked at through index w of old:
+ * same number of kept children, and the w-th child of old, if kept, is the (number of kept children before w)-th kept child of now */
+static size_t sbv_kept_before(const sb_view *v, size_t w) {
+	size_t i, c = 0;
+	for (i = 0; i < SBV_MAX; i++) if (i < v->n && i < w && sbv_is_kept_tag(v->tag[i])) c++;
+	return c;
+}
+/* index of the j-th kept child of v, or v->n */
+static size_t sbv_kept_nth(const sb_view *v, size_t j) {
+	size_t i, c = 0;
+	for (i = 0; i < SBV_MAX; i++) if (i < v->n && sbv_is_kept_tag(v->tag[i])) { if (c == j) return i; c++; }
+	return v->n;
+}
+static int sbv_wit_kept_equal(const sb_view *old, const sb_view *now, size_t w) {
+	if (sbv_kept_before(old, old->n) != sbv_kept_before(now, now->n)) return 0;
+	if (w >= old->n || !sbv_is_kept_tag(old->tag[w])) return 1;
+	{
+		size_t q = sbv_kept_nth(now, sbv_kept_before(old, w));
+		return q < now->n && now->id[q] == old->id[w] && now->tag[q] == old->tag[w];
+	}
+}
+
 /* ---- C10: structural constraints of a signature (signature_builder.c checkSignatureInternals) ----------------------
  * From the KSI format / the property text ("mandatory elements present ... mutually exclusive alternatives not combined,
  * at-least-one groups non-empty"):
@@ -122,4 +206,7 @@ static int sb_sig_schema_ok(size_t aggrChains, int hasCal, int hasCalAuth, int h
 	if (hasCalAuth && hasPub) return 0;
 	return 1;
 }
+#ifdef LIBKSI_VERIF
+#pragma CPROVER check pop
+#endif
 #endif
